@@ -62,7 +62,11 @@ func (core *JApiCore) getIncludedFilePath(keyword *scanner.Lexeme) (string, *jer
 		return "", requiredParameterNotSpecified(keyword)
 	}
 
-	path := parameter.Value().String()
+	// The file name may be quoted, as every other parameter.
+	path := directive.UnescapeParameter(parameter.Value()).String()
+	if path == "" {
+		return "", requiredParameterNotSpecified(keyword)
+	}
 
 	if err := validateIncludeFileName(path); err != nil {
 		return "", incorrectParameter(keyword, path, err.Error())
